@@ -1,2 +1,4 @@
+pub mod c07;
 pub mod c11;
+pub mod c16;
 pub mod c20;
